@@ -157,9 +157,6 @@ package devicefinder
 // subset; it does not consult the database or the authenticator.
 //@ func (*Default).deviceData
 //@   modifies nothing
-//@ func dnsserver.MustRequestInfoFromContext
-//@   modifies nothing
-//@   ensures ri != nil
 
 //@ func (*Default).Find
 //@   property C03
